@@ -358,10 +358,12 @@ func (c *minecraftConn) bufferPacket(packet proto.Packet, canQueue bool) (err er
 		}
 	}()
 	if canQueue {
+		// Decide and enqueue under the same lock that SetState/SetOutboundState hold
+		// while releasing and dropping the queue: a packet must never be pushed onto
+		// a queue that has already been released, and the deque is not thread-safe.
 		c.mu.Lock()
-		playPacketQueue := c.playPacketQueue
+		queued, queueErr := c.playPacketQueue.Queue(packet)
 		c.mu.Unlock()
-		queued, queueErr := playPacketQueue.Queue(packet)
 		if queueErr != nil {
 			return queueErr
 		}
